@@ -412,6 +412,10 @@ func (m *Module) WriteModule(include func(b *Built) bool) error {
 
 var fileErr = regexp.MustCompile(`(?m)^cases/(c\d+)/\S+\.go:\d+:\d+: .*$`)
 
+// dirErr: errors reported against the importing file that name the case directory ("found packages
+// a (x.go) and b (y.go) in <mod>/cases/c0001/tfschema", "no Go files in ...")
+var dirErr = regexp.MustCompile(`(?m)^.*/cases/(c\d+)(?:/\S*)?\s*$`)
+
 var pkgHdr = regexp.MustCompile(`(?m)^# (\S+/cases/\S+)`)
 
 // Build compiles the module; packages that fail to compile are recorded in
@@ -442,6 +446,15 @@ func (m *Module) Build(include func(b *Built) bool) (string, error) {
 		progress := false
 		// errors reported by file (import resolution, package clause ...) carry no "# package" header
 		for _, fm := range fileErr.FindAllStringSubmatch(text, -1) {
+			if b, ok := byPath[m.modName()+"/cases/"+fm[1]]; ok && b.CompileErr == "" {
+				b.CompileErr = strings.TrimSpace(fm[0])
+				progress = true
+			}
+		}
+		for _, fm := range dirErr.FindAllStringSubmatch(text, -1) {
+			if strings.HasPrefix(fm[0], "# ") {
+				continue
+			}
 			if b, ok := byPath[m.modName()+"/cases/"+fm[1]]; ok && b.CompileErr == "" {
 				b.CompileErr = strings.TrimSpace(fm[0])
 				progress = true
